@@ -68,8 +68,10 @@ MAIN_HEAD = """fn main() -> unit {
     let inc = |a: int32| a + 1;
     let col = Col::Grn(inc(1));
     let opt: Opt[int32] = Opt::Som(3);
+    let Pt { xs, ys } = pt;
+    let sh = Pt { xs, ys };
 """
-MAIN_TAIL = """    let n = pt.norm(3) + wr.inner.xs + bx.count() + twice(inc, 2);
+MAIN_TAIL = """    let n = pt.norm(3) + wr.inner.xs + bx.count() + twice(inc, 2) + sh.xs + xs + ys;
     let s = ident(bx.get()) + Shw::show(pt) + ident("x");
     let m = match col { Col::Red => 0, Col::Grn(g) => g, Col::Mix(a, b) => if b { a } else { 0 } };
     let o = match opt { Opt::Non => 0, Opt::Som(v) => v };
